@@ -1,6 +1,8 @@
 pub mod c01;
 pub mod c02;
+pub mod c03;
 pub mod c05;
+pub mod c06;
 pub mod c07;
 pub mod c08;
 pub mod c09;
@@ -13,7 +15,9 @@ pub fn run(id: &str, ctx: &Ctx) -> i32 {
     match id {
         "C01" => c01::run(ctx),
         "C02" => c02::run(ctx),
+        "C03" => c03::run(ctx),
         "C05" => c05::run(ctx),
+        "C06" => c06::run(ctx),
         "C07" => c07::run(ctx),
         "C08" => c08::run(ctx),
         "C09" => c09::run(ctx),
@@ -29,7 +33,9 @@ pub fn replay(id: &str, ctx: &Ctx, v: &Value) -> i32 {
     match id {
         "C01" => c01::replay(ctx, v),
         "C02" => c02::replay(ctx, v),
+        "C03" => c03::replay(ctx, v),
         "C05" => c05::replay(ctx, v),
+        "C06" => c06::replay(ctx, v),
         "C07" => c07::replay(ctx, v),
         "C08" => c08::replay(ctx, v),
         "C09" => c09::replay(ctx, v),
